@@ -9,7 +9,7 @@ for id in "$@"; do
   TMP="$(mktemp -d /tmp/verif.XXXXXX)"
   EXTRA=(); [ "$id" = C14 ] && EXTRA=(-stmt leveldb/memdb)
   if VERIF_REPO="$WT" "$ROOT/scripts/build.sh" "$TMP" "${EXTRA[@]}" >"$TMP/build.log" 2>&1; then
-    VERIF_ROOT="$SCR" "$TMP/verif" run "$id" "${TIER:-quick}" 2>&1 | grep -E "^C[0-9]+ |signature|UNCONF|NONDET" | head -${LINES_MAX:-6} | cut -c1-${CUT:-420}
+    VERIF_ROOT="$SCR" "$TMP/verif" run "$id" "${TIER:-quick}" 2>&1 | grep -aE "^C[0-9]+ |signature|UNCONF|NONDET|bound=" | head -${LINES_MAX:-6} | cut -c1-${CUT:-420}
     echo "  -> exit ${PIPESTATUS[0]}"
   else
     echo "$id: BUILD-ERROR"; tail -5 "$TMP/build.log"
